@@ -695,6 +695,13 @@ static int mapping0_forward(vorbis_block *vb){
   return(0);
 }
 
+#ifdef XIPH_VORBIS_VERIF
+/* verification probe (off unless a harness installs it): the spectral
+   vector of every channel after residue decode (stage 0) and after
+   inverse channel coupling (stage 1) */
+void (*vorbis_verif_spectrum)(int stage,int ch,const float *v,long n)=0;
+#endif
+
 static int mapping0_inverse(vorbis_block *vb,vorbis_info_mapping *l){
   vorbis_dsp_state     *vd=vb->vd;
   vorbis_info          *vi=vd->vi;
@@ -750,6 +757,11 @@ static int mapping0_inverse(vorbis_block *vb,vorbis_info_mapping *l){
               pcmbundle,zerobundle,ch_in_bundle);
   }
 
+#ifdef XIPH_VORBIS_VERIF
+  if(vorbis_verif_spectrum)
+    for(i=0;i<vi->channels;i++)vorbis_verif_spectrum(0,i,vb->pcm[i],n/2);
+#endif
+
   /* channel coupling */
   for(i=info->coupling_steps-1;i>=0;i--){
     float *pcmM=vb->pcm[info->coupling_mag[i]];
@@ -777,6 +789,11 @@ static int mapping0_inverse(vorbis_block *vb,vorbis_info_mapping *l){
         }
     }
   }
+
+#ifdef XIPH_VORBIS_VERIF
+  if(vorbis_verif_spectrum)
+    for(i=0;i<vi->channels;i++)vorbis_verif_spectrum(1,i,vb->pcm[i],n/2);
+#endif
 
   /* compute and apply spectral envelope */
   for(i=0;i<vi->channels;i++){
